@@ -166,6 +166,27 @@ def bfs(names, ctx, depth, max_states):
     return transitions, len(seen)
 
 
+def wide_parents():
+    """one parent with 3, 4 or 5 children in every arrangement of two names: every shift (each child, both directions, both kinds),
+    every removal and a clear - the same-named sibling is often NOT adjacent"""
+    import itertools
+    out = []
+    for k in (3, 4, 5):
+        for arr in itertools.product("ab", repeat=k):
+            names = ["p"] + list(arr)
+            hist = [["append", 0, i] for i in range(1, k + 1)]
+            ops = [["shift", 0, c, d, sib] for c in range(1, k + 1) for d in "LR" for sib in (True, False)]
+            ops += [["remove", 0, c] for c in range(1, k + 1)] + [["clear", 0]]
+            for op in ops:
+                nodes = fresh(names)
+                for h in hist:
+                    apply_impl(nodes, h)
+                before = state_of(nodes)
+                ret = apply_impl(nodes, op)
+                out.append(("wide", names, hist, op, before, ret, state_of(nodes)))
+    return out
+
+
 def random_history(names, rng, length):
     n = len(names)
     nodes = fresh(names)
@@ -291,6 +312,7 @@ def run(ctx):
     names10 = ["a", "b", "a", "c", "a", "b", "a", "a", "c", "b"]
     for _ in range(20 if quick else 80 if mid else 400):
         trans += [("random", names10) + x for x in random_history(names10, rng, 120 if quick else 200)]
+    trans += wide_parents()
     fails, diffs, samples = [], [], []
     reqs = []
     for kind, names, hist, op, before, ret, after in trans:
@@ -317,7 +339,7 @@ def run(ctx):
     return {"evaluations": len(trans) + qn, "distinct_nontrivial": len({json.dumps([t[1], t[4], t[3]]) for t in trans}),
             "rule": "BFS over all reachable states of 3 nodes (names a,a,b; depth 4 quick / 6 thorough) and 4 nodes, in each state every operation with every operand "
                     "(append / insert at -7,-1,0,1,2,7 / remove / replace / shift L,R x sib / clear; attaches only when the hypothesis allows, failing edits always); "
-                    "random histories of length 120-200 over 10 nodes; all queries on random trees of depth 1-4. distinct = distinct (state, operation); all non-trivial",
+                    "one parent with 3-5 children in every arrangement of two names x every shift / removal / clear; random histories of length 120-200 over 10 nodes; all queries on random trees of depth 1-4. distinct = distinct (state, operation); all non-trivial",
             "samples": samples, "corr_diffs": diffs, "oracle_fails": fails,
             "distribution": {"ops": kinds, "states_bfs3": s1, "states_bfs4": s2, "failing_edits": failing_edits, "query_trees": qn},
             "states": s1 + s2, "transitions": len(trans)}
